@@ -31,6 +31,20 @@ def build(kind, form=0):
     return FiniteRatesEVSE("E-1", arg)
 
 
+def companion(kind):
+    from acnportal.acnsim.models import DeadbandEVSE, FiniteRatesEVSE
+    if kind["cls"] == "deadband":
+        return DeadbandEVSE("E-0", deadband_end=(kind["end"] + kind["max"]) / 2.0 / U, max_rate=kind["max"] / U)
+    if kind["cls"] == "finite":
+        pos = sorted({l for l in kind["levels"] if l > 0})
+        if not pos:
+            return None
+        lo, hi = pos[0], pos[-1]
+        mid = {lo, hi, (lo + hi) // 2 + 1}       # never equal to the kind's own interior levels on the lattice
+        return FiniteRatesEVSE("E-0", [l / U for l in sorted(mid)])
+    return None
+
+
 def replay_case(b):
     """Returns None or a dict describing the first mismatch."""
     from acnportal.acnsim.models import EV, Battery, InvalidRateError, StationOccupiedError
@@ -42,7 +56,14 @@ def replay_case(b):
         form = int(jhash(b)[:4], 16)
         evse = build(kind, form)
         net = ChargingNetwork()
+        # what a station advertises depends on its own kind only: a companion of the same class with the same smallest
+        # and largest rate but a different allowable set in between shares the network (registered before or after)
+        comp = companion(kind)
+        if comp is not None and form % 2 == 0:
+            net.register_evse(comp, V, 0)
         net.register_evse(evse, V, 0)
+        if comp is not None and form % 2 == 1:
+            net.register_evse(comp, V, 0)
         sim = Simulator(net, BaseAlgorithm(), EventQueue(), datetime(2020, 1, 1), period=T, verbose=False)
         iface = Interface(sim)
         # advertised limits, through every route a scheduler can use
@@ -60,7 +81,7 @@ def replay_case(b):
                                 ("Interface.min_pilot_signal", iface.min_pilot_signal("E-1"), b["min"] / U),
                                 ("EVSE.max_rate", evse.max_rate, b["max"] / U),
                                 ("EVSE.min_rate", evse.min_rate, b["min"] / U),
-                                ("infrastructure_info.max_pilot", iface.infrastructure_info().max_pilot[0], b["max"] / U)):
+                                ("infrastructure_info.max_pilot", iface.infrastructure_info().max_pilot[net.station_ids.index("E-1")], b["max"] / U)):
             if not close(got, want):
                 return {"field": name, "spec": want, "impl": float(got)}
         # every advertised value is itself accepted (vacant station: no side effects)
